@@ -75,6 +75,7 @@ static CO_ERR COTParaStoreRead(struct CO_OBJ_T *obj, struct CO_NODE_T *node, voi
     if (CO_GET_SUB(obj->Key) == 0) {
         result = uint8->Read(obj, node, buffer, size);
     } else {
+        ASSERT_EQU_ERR(size, COT_ENTRY_SIZE, CO_ERR_BAD_ARG);
         pg = (CO_PARA *)(obj->Data);
         *(uint32_t *)buffer = pg->Value;
         result = CO_ERR_NONE;
@@ -101,6 +102,7 @@ static CO_ERR COTParaStoreWrite(struct CO_OBJ_T *obj, struct CO_NODE_T *node, vo
         result = uint8->Write(obj, node, buffer, size);
     } else {
         /* check store signature */
+        ASSERT_EQU_ERR(size, COT_ENTRY_SIZE, CO_ERR_BAD_ARG);
         value = *((uint32_t *)buffer);
         if (value != CO_PARA_STORE_SIG) {
             return (CO_ERR_TYPE_WR);
